@@ -18,5 +18,5 @@ import re
 head=re.sub(r'def translated : List String := \[.*\]', 'def translated : List String := [' + ", ".join('"%s"'%f for f in d["ok"]) + ']', head)
 open('/tmp/srclean/Anonymongo/Generated/Src.lean','w').write(head+d["lean"]+"end Anonymongo.Src\n")
 PY
-cd $LP && lake build Anonymongo.Props.Src.Scalar Anonymongo.Props.Src.Helpers Anonymongo.Props.Src.Walk Anonymongo.Props.Src.Hash Anonymongo.Props.Src.Dispatch Anonymongo.Props.Src.Command Anonymongo.Props.Src.Line 2>&1 | grep "error\|✖\|Build completed" | head -8
+cd $LP && lake build Anonymongo.Props.Src.Leaf Anonymongo.Props.Src.PathFns Anonymongo.Props.Src.Key Anonymongo.Props.Src.Scalar Anonymongo.Props.Src.Helpers Anonymongo.Props.Src.Walk Anonymongo.Props.Src.Hash Anonymongo.Props.Src.Dispatch Anonymongo.Props.Src.Command Anonymongo.Props.Src.Line 2>&1 | grep "error\|✖\|Build completed" | head -12
 git -C /repo worktree remove --force $WT
